@@ -8,6 +8,18 @@ probabilities) and one action per infoset of the other player (that player's cur
 all independently.  The expectation over both families of draws of what the pass adds to a regret
 accumulator of the updating player equals what the unsampled traversal adds: the exact
 instantaneous counterfactual regret.
+
+Proof outline (`Cfr.UnbE`, imitating `Cfr.Unb`): `EE` is the double expectation (chance draws
+outside, the other player's draws inside); it is linear and the draw of one chance infoset
+(`EE_pullC`) or of one infoset of the other player (`EE_pullP`) can be integrated first.  `em` is a
+pure mirror of `erec` (draws as functions, no caches) that `erec` agrees with from any cache
+consistent with the draws (`erec_em`).  A subtree only reads the draws of its own chance infosets
+and of its own infosets of the other player (`em_congr`); perfect recall of the other player
+(`GameWF.recall`) gives that none of that player's infosets occurs twice on a path
+(`pr_noRepeat`), so the draw at a node of the other player is independent of everything below it.
+The induction `unbE` proves jointly, for every subtree `n` and all reaches `pc p1 p2`,
+`E[value_ext n] = ± value_full n` and `E[cell_ext n] * w = cell_full n` where `w` is the
+rest-of-the-world reach (`pc * p2` for `first = true`, `p1 * pc` otherwise).
 -/
 set_option linter.unusedSectionVars false
 namespace Cfr
@@ -22,6 +34,616 @@ def extCtx (g : Game α) (first : Bool) (strat : Bool → Nat → List α) (kc k
 def oppTable (g : Game α) (first : Bool) (strat : Bool → Nat → List α) : List (List α) :=
   (List.range (g.infos (!first)).length).map (fun j => strat (!first) j)
 
+namespace UnbE
+open Unb
+
+/-! ## the double expectation -/
+
+/-- expectation over the chance draws (outer) and the other player's draws (inner) -/
+def EE (ch opp : List (List α)) (k0 k0' : Draws) (F : Draws → Draws → α) : α :=
+  expectDraws ch 0 k0 (fun kc => expectDraws opp 0 k0' (fun kp => F kc kp))
+
+section
+variable (ch opp : List (List α)) (k0 k0' : Draws)
+
+theorem EE_add (F G : Draws → Draws → α) :
+    EE ch opp k0 k0' (fun kc kp => F kc kp + G kc kp) = EE ch opp k0 k0' F + EE ch opp k0 k0' G := by
+  simp only [EE, expectDraws_add]
+
+theorem EE_mul_left (c : α) (F : Draws → Draws → α) :
+    EE ch opp k0 k0' (fun kc kp => c * F kc kp) = c * EE ch opp k0 k0' F := by
+  simp only [EE, expectDraws_mul_left]
+
+theorem EE_zero : EE ch opp k0 k0' (fun _ _ => (0 : α)) = 0 := by
+  simp only [EE, expectDraws_zero]
+
+theorem EE_neg (F : Draws → Draws → α) :
+    EE ch opp k0 k0' (fun kc kp => - F kc kp) = - EE ch opp k0 k0' F := by
+  simp only [EE, expectDraws_neg]
+
+theorem EE_const (hch : ∀ ps ∈ ch, ps.sum = 1) (hopp : ∀ σ ∈ opp, σ.sum = 1) (c : α) :
+    EE ch opp k0 k0' (fun _ _ => c) = c := by
+  simp only [EE, expectDraws_const opp hopp, expectDraws_const ch hch]
+
+theorem expectDraws_expectOne (s : Nat) (k : Draws) (σ : List α) (G : Draws → Nat → α) :
+    expectDraws ch s k (fun kc => expectOne σ (fun j => G kc j))
+      = expectOne σ (fun j => expectDraws ch s k (fun kc => G kc j)) := by
+  induction σ generalizing G with
+  | nil => simp only [expectOne_nil, expectDraws_zero]
+  | cons p σ ih =>
+    simp only [expectOne_cons, expectDraws_add, expectDraws_mul_left]
+    rw [ih (fun kc j => G kc (j + 1))]
+
+/-- the draw of one chance infoset can be integrated first -/
+theorem EE_pullC (i : Nat) (ps : List α) (h : ch[i]? = some ps) (h1 : ps.sum = 1)
+    (F : Draws → Draws → α) :
+    EE ch opp k0 k0' F
+      = expectOne ps (fun j => EE ch opp k0 k0' (fun kc kp => F (upd kc i j) kp)) := by
+  unfold EE
+  rw [expectDraws_pull ch 0 k0 i ps h h1]
+  simp only [Nat.zero_add]
+
+/-- the draw of one infoset of the other player can be integrated first -/
+theorem EE_pullP (i : Nat) (σ : List α) (h : opp[i]? = some σ) (h1 : σ.sum = 1)
+    (F : Draws → Draws → α) :
+    EE ch opp k0 k0' F
+      = expectOne σ (fun j => EE ch opp k0 k0' (fun kc kp => F kc (upd kp i j))) := by
+  unfold EE
+  rw [← expectDraws_expectOne]
+  apply expectDraws_congr
+  intro kc
+  rw [expectDraws_pull opp 0 k0' i σ h h1]
+  simp only [Nat.zero_add]
+
+end
+
+/-! ## a pure mirror of the external-sampling traversal -/
+
+mutual
+def em (first : Bool) (strat : Bool → Nat → List α) (kc kp : Draws) : Node α → α × List (Eff α)
+  | .term p => (if first then p else -p, [])
+  | .chance i ks => emNth first strat kc kp ks (kc i)
+  | .player one i ks =>
+    if one = first then
+      let r := emActs first strat kc kp one i (strat one i) ks 0
+      (r.1, r.2 ++ subEffsE one i r.1 (strat one i).length)
+    else
+      let r := emNth first strat kc kp ks (kp i)
+      (r.1, extStratEffs one i (strat one i) 0 ++ r.2)
+def emNth (first : Bool) (strat : Bool → Nat → List α) (kc kp : Draws) :
+    List (Node α) → Nat → α × List (Eff α)
+  | [], _ => (0, [])
+  | n :: _, 0 => em first strat kc kp n
+  | _ :: ks, j + 1 => emNth first strat kc kp ks j
+def emActs (first : Bool) (strat : Bool → Nat → List α) (kc kp : Draws) (one : Bool) (i : Nat) :
+    List α → List (Node α) → Nat → α × List (Eff α)
+  | s :: σ, n :: ks, a =>
+    let r := em first strat kc kp n
+    let r' := emActs first strat kc kp one i σ ks (a + 1)
+    (s * r.1 + r'.1, r.2 ++ ⟨one, i, .regret, a, r.1⟩ :: r'.2)
+  | _, _, _ => (0, [])
+end
+
+theorem emActs_nil_right (first : Bool) (strat : Bool → Nat → List α) (kc kp : Draws) (one : Bool)
+    (i : Nat) (σ : List α) (a : Nat) : emActs first strat kc kp one i σ [] a = (0, []) := by
+  cases σ <;> simp [emActs]
+
+/-! ### unfolding equations of the model in projection form -/
+
+theorem erec_chance_eq' (c : ECtx α) (i : Nat) (ks : List (Node α)) (d : DrawSt α) :
+    erec c (.chance i ks) d =
+      erecNth c ks (sampleChance c.draw c.chancePass (c.ch.getD i []) i d).1
+        (sampleChance c.draw c.chancePass (c.ch.getD i []) i d).2 := by
+  simp only [erec]
+
+theorem erec_own_eq' (c : ECtx α) (one : Bool) (i : Nat) (ks : List (Node α)) (d : DrawSt α)
+    (h : (one == c.first) = true) :
+    erec c (.player one i ks) d =
+      ((erecActs c one i (c.strat one i) ks d 0 0).1,
+       (erecActs c one i (c.strat one i) ks d 0 0).2.1 ++
+         subEffsE one i (erecActs c one i (c.strat one i) ks d 0 0).1 (c.strat one i).length,
+       (erecActs c one i (c.strat one i) ks d 0 0).2.2) := by
+  simp only [erec, if_pos h]
+
+theorem erec_opp_eq' (c : ECtx α) (one : Bool) (i : Nat) (ks : List (Node α)) (d : DrawSt α)
+    (h : ¬ (one == c.first) = true) :
+    erec c (.player one i ks) d =
+      ((erecNth c ks (samplePlayer c.draw (if one then 1 else 2) c.playerPass (c.strat one i) i d).1
+          (samplePlayer c.draw (if one then 1 else 2) c.playerPass (c.strat one i) i d).2).1,
+       extStratEffs one i (c.strat one i) 0 ++
+        (erecNth c ks (samplePlayer c.draw (if one then 1 else 2) c.playerPass (c.strat one i) i d).1
+          (samplePlayer c.draw (if one then 1 else 2) c.playerPass (c.strat one i) i d).2).2.1,
+       (erecNth c ks (samplePlayer c.draw (if one then 1 else 2) c.playerPass (c.strat one i) i d).1
+          (samplePlayer c.draw (if one then 1 else 2) c.playerPass (c.strat one i) i d).2).2.2) := by
+  simp only [erec, if_neg h]
+
+theorem erecActs_cons_eq' (c : ECtx α) (one : Bool) (j : Nat) (s : α) (σ : List α) (k : Node α)
+    (ks : List (Node α)) (d : DrawSt α) (a : Nat) (ex : α) :
+    erecActs c one j (s :: σ) (k :: ks) d a ex =
+      ((erecActs c one j σ ks (erec c k d).2.2 (a + 1) (ex + s * (erec c k d).1)).1,
+       (erec c k d).2.1 ++ ⟨one, j, .regret, a, (erec c k d).1⟩ ::
+         (erecActs c one j σ ks (erec c k d).2.2 (a + 1) (ex + s * (erec c k d).1)).2.1,
+       (erecActs c one j σ ks (erec c k d).2.2 (a + 1) (ex + s * (erec c k d).1)).2.2) := by
+  simp only [erecActs]
+
+/-! ### the traversal of the model agrees with the mirror from any consistent cache -/
+
+/-- every cached sample is the draw `kc` (chance) resp. `kp` (other player) -/
+def ConsE (kc kp : Draws) (d : DrawSt α) : Prop :=
+  (∀ i v, assocGet d.chance i = some v → v = kc i) ∧
+  (∀ i v, assocGet d.player i = some v → v = kp i)
+
+theorem ConsE_empty (kc kp : Draws) : ConsE kc kp ({} : DrawSt α) :=
+  ⟨fun i v h => by simp [assocGet] at h, fun i v h => by simp [assocGet] at h⟩
+
+theorem sampleChance_consE (kc kp : Draws) (draw : DrawFn α) (pass : Nat) (ps : List α) (i : Nat)
+    (d : DrawSt α) (hdraw : draw 0 i pass ps = kc i) (hd : ConsE kc kp d) :
+    (sampleChance draw pass ps i d).1 = kc i ∧ ConsE kc kp (sampleChance draw pass ps i d).2 := by
+  cases hg : assocGet d.chance i with
+  | some v => simp only [sampleChance, hg]; exact ⟨hd.1 i v hg, hd⟩
+  | none =>
+    simp only [sampleChance, hg]
+    refine ⟨hdraw, ?_, hd.2⟩
+    intro j v hj
+    simp only [assocGet, List.find?_cons] at hj
+    by_cases hij : i = j
+    · subst hij; simp at hj; rw [← hj]; exact hdraw
+    · have : (i == j) = false := by simpa using hij
+      simp only [this] at hj
+      exact hd.1 j v hj
+
+theorem samplePlayer_consE (kc kp : Draws) (draw : DrawFn α) (kind pass : Nat) (σ : List α) (i : Nat)
+    (d : DrawSt α) (hdraw : draw kind i pass σ = kp i) (hd : ConsE kc kp d) :
+    (samplePlayer draw kind pass σ i d).1 = kp i ∧
+      ConsE kc kp (samplePlayer draw kind pass σ i d).2 := by
+  cases hg : assocGet d.player i with
+  | some v => simp only [samplePlayer, hg]; exact ⟨hd.2 i v hg, hd⟩
+  | none =>
+    simp only [samplePlayer, hg]
+    refine ⟨hdraw, hd.1, ?_⟩
+    intro j v hj
+    simp only [assocGet, List.find?_cons] at hj
+    by_cases hij : i = j
+    · subst hij; simp at hj; rw [← hj]; exact hdraw
+    · have : (i == j) = false := by simpa using hij
+      simp only [this] at hj
+      exact hd.2 j v hj
+
+theorem extCtx_draw_chance (g : Game α) (first : Bool) (strat : Bool → Nat → List α) (kc kp : Draws)
+    (i p : Nat) (ps : List α) : (extCtx g first strat kc kp).draw 0 i p ps = kc i := by
+  simp [extCtx]
+
+theorem extCtx_draw_player (g : Game α) (first : Bool) (strat : Bool → Nat → List α) (kc kp : Draws)
+    (one : Bool) (i p : Nat) (ps : List α) :
+    (extCtx g first strat kc kp).draw (if one then 1 else 2) i p ps = kp i := by
+  cases one <;> simp [extCtx]
+
+mutual
+theorem erec_em (g : Game α) (first : Bool) (strat : Bool → Nat → List α) (kc kp : Draws) :
+    ∀ (n : Node α) (d : DrawSt α), ConsE kc kp d →
+      (erec (extCtx g first strat kc kp) n d).1 = (em first strat kc kp n).1 ∧
+      (erec (extCtx g first strat kc kp) n d).2.1 = (em first strat kc kp n).2 ∧
+      ConsE kc kp (erec (extCtx g first strat kc kp) n d).2.2
+  | .term p, d, hd => by
+    refine ⟨?_, ?_, ?_⟩ <;> simp only [erec, em] <;> first | rfl | exact hd
+  | .chance i ks, d, hd => by
+    obtain ⟨h1, h2⟩ := sampleChance_consE kc kp (extCtx g first strat kc kp).draw
+      (extCtx g first strat kc kp).chancePass ((extCtx g first strat kc kp).ch.getD i []) i d
+      (extCtx_draw_chance g first strat kc kp i _ _) hd
+    rw [erec_chance_eq', h1]
+    simp only [em]
+    exact erecNth_em g first strat kc kp ks (kc i) _ h2
+  | .player one i ks, d, hd => by
+    by_cases ho : one = first
+    · have ho' : (one == (extCtx g first strat kc kp).first) = true := by simp [extCtx, ho]
+      rw [erec_own_eq' _ one i ks d ho']
+      obtain ⟨h1, h2, h3⟩ := erecActs_em g first strat kc kp one i (strat one i) ks d 0 0 hd
+      have hst : (extCtx g first strat kc kp).strat = strat := rfl
+      simp only [em, if_pos ho, hst]
+      refine ⟨?_, ?_, h3⟩
+      · rw [h1, zero_add]
+      · rw [h1, h2, zero_add]
+    · have ho' : ¬ (one == (extCtx g first strat kc kp).first) = true := by simp [extCtx, ho]
+      rw [erec_opp_eq' _ one i ks d ho']
+      have hst : (extCtx g first strat kc kp).strat = strat := rfl
+      obtain ⟨h1, h2⟩ := samplePlayer_consE kc kp (extCtx g first strat kc kp).draw
+        (if one then 1 else 2) (extCtx g first strat kc kp).playerPass (strat one i) i d
+        (extCtx_draw_player g first strat kc kp one i _ _) hd
+      simp only [hst, h1, em, if_neg ho]
+      obtain ⟨g1, g2, g3⟩ := erecNth_em g first strat kc kp ks (kp i) _ h2
+      exact ⟨g1, by rw [g2], g3⟩
+theorem erecNth_em (g : Game α) (first : Bool) (strat : Bool → Nat → List α) (kc kp : Draws) :
+    ∀ (ks : List (Node α)) (j : Nat) (d : DrawSt α), ConsE kc kp d →
+      (erecNth (extCtx g first strat kc kp) ks j d).1 = (emNth first strat kc kp ks j).1 ∧
+      (erecNth (extCtx g first strat kc kp) ks j d).2.1 = (emNth first strat kc kp ks j).2 ∧
+      ConsE kc kp (erecNth (extCtx g first strat kc kp) ks j d).2.2
+  | [], _, d, hd => by simp [erecNth, emNth, hd]
+  | n :: _, 0, d, hd => by
+    simp only [erecNth, emNth]; exact erec_em g first strat kc kp n d hd
+  | _ :: ks, j + 1, d, hd => by
+    simp only [erecNth, emNth]; exact erecNth_em g first strat kc kp ks j d hd
+theorem erecActs_em (g : Game α) (first : Bool) (strat : Bool → Nat → List α) (kc kp : Draws)
+    (one : Bool) (i : Nat) :
+    ∀ (σ : List α) (ks : List (Node α)) (d : DrawSt α) (a : Nat) (ex : α), ConsE kc kp d →
+      (erecActs (extCtx g first strat kc kp) one i σ ks d a ex).1
+        = ex + (emActs first strat kc kp one i σ ks a).1 ∧
+      (erecActs (extCtx g first strat kc kp) one i σ ks d a ex).2.1
+        = (emActs first strat kc kp one i σ ks a).2 ∧
+      ConsE kc kp (erecActs (extCtx g first strat kc kp) one i σ ks d a ex).2.2
+  | s :: σ, n :: ks, d, a, ex, hd => by
+    rw [erecActs_cons_eq']
+    obtain ⟨h1, h2, h3⟩ := erec_em g first strat kc kp n d hd
+    obtain ⟨g1, g2, g3⟩ := erecActs_em g first strat kc kp one i σ ks
+      (erec (extCtx g first strat kc kp) n d).2.2 (a + 1)
+      (ex + s * (erec (extCtx g first strat kc kp) n d).1) h3
+    simp only [emActs]
+    refine ⟨?_, ?_, g3⟩
+    · rw [g1, h1]; ring
+    · rw [g2, h1, h2]
+  | [], _, d, _, ex, hd => by simp [erecActs, emActs, hd]
+  | _ :: _, [], d, _, ex, hd => by simp [erecActs, emActs, hd]
+end
+
+/-! ## no infoset of a player with perfect recall occurs twice on a path -/
+
+mutual
+/-- no infoset of player `opp` occurs twice on a root-to-leaf path -/
+def NoOppRepeat (opp : Bool) : List Nat → Node α → Prop
+  | _, .term _ => True
+  | seen, .chance _ ks => NoOppRepeatL opp seen ks
+  | seen, .player one i ks =>
+    if one = opp then i ∉ seen ∧ NoOppRepeatL opp (i :: seen) ks else NoOppRepeatL opp seen ks
+def NoOppRepeatL (opp : Bool) : List Nat → List (Node α) → Prop
+  | _, [] => True
+  | seen, k :: ks => NoOppRepeat opp seen k ∧ NoOppRepeatL opp seen ks
+end
+
+mutual
+theorem pr_noRepeat (me : Bool) (hist : Nat → Hist) :
+    ∀ (n : Node α) (H : Hist) (seen : List Nat), PR me hist H n →
+      (∀ x ∈ seen, (hist x).length < H.length) → NoOppRepeat me seen n
+  | .term _, _, _, _, _ => by simp [NoOppRepeat]
+  | .chance _ ks, H, seen, h, hs => by
+    simp only [NoOppRepeat]
+    exact prl_noRepeat me hist ks H seen (by simpa [PR] using h) hs
+  | .player one i ks, H, seen, h, hs => by
+    by_cases ho : one = me
+    · obtain ⟨hH, hD⟩ := (by simpa [PR, ho] using h : hist i = H ∧ PRD me hist H i 0 ks)
+      simp only [NoOppRepeat, if_pos ho]
+      refine ⟨fun hi => ?_, prd_noRepeat me hist ks H i 0 (i :: seen) hD ?_⟩
+      · have := hs i hi
+        rw [hH] at this
+        exact absurd this (lt_irrefl _)
+      · intro x hx
+        rcases List.mem_cons.mp hx with rfl | hx
+        · rw [hH]; exact Nat.lt_succ_self _
+        · exact Nat.lt_succ_of_lt (hs x hx)
+    · have hL : PRL me hist H ks := by simpa [PR, ho] using h
+      simp only [NoOppRepeat, if_neg ho]
+      exact prl_noRepeat me hist ks H seen hL hs
+theorem prl_noRepeat (me : Bool) (hist : Nat → Hist) :
+    ∀ (ks : List (Node α)) (H : Hist) (seen : List Nat), PRL me hist H ks →
+      (∀ x ∈ seen, (hist x).length < H.length) → NoOppRepeatL me seen ks
+  | [], _, _, _, _ => by simp [NoOppRepeatL]
+  | k :: ks, H, seen, h, hs => by
+    obtain ⟨h1, h2⟩ := (by simpa [PRL] using h : PR me hist H k ∧ PRL me hist H ks)
+    simp only [NoOppRepeatL]
+    exact ⟨pr_noRepeat me hist k H seen h1 hs, prl_noRepeat me hist ks H seen h2 hs⟩
+theorem prd_noRepeat (me : Bool) (hist : Nat → Hist) :
+    ∀ (ks : List (Node α)) (H : Hist) (i a : Nat) (seen : List Nat), PRD me hist H i a ks →
+      (∀ x ∈ seen, (hist x).length < H.length + 1) → NoOppRepeatL me seen ks
+  | [], _, _, _, _, _, _ => by simp [NoOppRepeatL]
+  | k :: ks, H, i, a, seen, h, hs => by
+    obtain ⟨h1, h2⟩ := (by simpa [PRD] using h :
+      PR me hist (H ++ [(i, a)]) k ∧ PRD me hist H i (a + 1) ks)
+    simp only [NoOppRepeatL]
+    exact ⟨pr_noRepeat me hist k (H ++ [(i, a)]) seen h1 (fun x hx => by simpa using hs x hx),
+      prd_noRepeat me hist ks H i (a + 1) seen h2 hs⟩
+end
+
+/-! ## a subtree only reads the draws of its own chance infosets and opponent infosets -/
+
+section
+variable (first : Bool) (strat : Bool → Nat → List α)
+
+mutual
+theorem em_congr (kc kc' kp kp' : Draws) : ∀ (n : Node α) (sc sp : List Nat),
+    NoChanceRepeat sc n → NoOppRepeat (!first) sp n →
+    (∀ x, x ∉ sc → kc x = kc' x) → (∀ x, x ∉ sp → kp x = kp' x) →
+    em first strat kc kp n = em first strat kc' kp' n
+  | .term p, _, _, _, _, _, _ => by simp only [em]
+  | .chance i ks, sc, sp, hc, hp, hkc, hkp => by
+    obtain ⟨hi, hks⟩ := (by simpa [NoChanceRepeat] using hc : i ∉ sc ∧ NoChanceRepeatL (i :: sc) ks)
+    have hps : NoOppRepeatL (!first) sp ks := by simpa [NoOppRepeat] using hp
+    have hkc' : ∀ x, x ∉ i :: sc → kc x = kc' x :=
+      fun x hx => hkc x (fun h => hx (List.mem_cons_of_mem _ h))
+    simp only [em]
+    rw [hkc i hi, emNth_congr kc kc' kp kp' ks _ (i :: sc) sp hks hps hkc' hkp]
+  | .player one i ks, sc, sp, hc, hp, hkc, hkp => by
+    have hks : NoChanceRepeatL sc ks := by simpa [NoChanceRepeat] using hc
+    by_cases ho : one = first
+    · have hne : ¬ one = !first := by rw [ho]; simp
+      have hps : NoOppRepeatL (!first) sp ks := by simpa [NoOppRepeat, hne] using hp
+      simp only [em, if_pos ho]
+      rw [emActs_congr kc kc' kp kp' one i _ ks 0 sc sp hks hps hkc hkp]
+    · have hopp : one = !first := Bool.eq_not_of_ne ho
+      obtain ⟨hi, hps⟩ := (by simpa [NoOppRepeat, hopp] using hp :
+        i ∉ sp ∧ NoOppRepeatL (!first) (i :: sp) ks)
+      have hkp' : ∀ x, x ∉ i :: sp → kp x = kp' x :=
+        fun x hx => hkp x (fun h => hx (List.mem_cons_of_mem _ h))
+      simp only [em, if_neg ho]
+      rw [hkp i hi, emNth_congr kc kc' kp kp' ks _ sc (i :: sp) hks hps hkc hkp']
+theorem emNth_congr (kc kc' kp kp' : Draws) : ∀ (ks : List (Node α)) (j : Nat) (sc sp : List Nat),
+    NoChanceRepeatL sc ks → NoOppRepeatL (!first) sp ks →
+    (∀ x, x ∉ sc → kc x = kc' x) → (∀ x, x ∉ sp → kp x = kp' x) →
+    emNth first strat kc kp ks j = emNth first strat kc' kp' ks j
+  | [], _, _, _, _, _, _, _ => by simp only [emNth]
+  | n :: _, 0, sc, sp, hc, hp, hkc, hkp => by
+    obtain ⟨h1, _⟩ := (by simpa [NoChanceRepeatL] using hc :
+      NoChanceRepeat sc n ∧ NoChanceRepeatL sc _)
+    obtain ⟨g1, _⟩ := (by simpa [NoOppRepeatL] using hp :
+      NoOppRepeat (!first) sp n ∧ NoOppRepeatL (!first) sp _)
+    simp only [emNth]; exact em_congr kc kc' kp kp' n sc sp h1 g1 hkc hkp
+  | _ :: ks, j + 1, sc, sp, hc, hp, hkc, hkp => by
+    obtain ⟨_, h2⟩ := (by simpa [NoChanceRepeatL] using hc :
+      NoChanceRepeat sc _ ∧ NoChanceRepeatL sc ks)
+    obtain ⟨_, g2⟩ := (by simpa [NoOppRepeatL] using hp :
+      NoOppRepeat (!first) sp _ ∧ NoOppRepeatL (!first) sp ks)
+    simp only [emNth]; exact emNth_congr kc kc' kp kp' ks j sc sp h2 g2 hkc hkp
+theorem emActs_congr (kc kc' kp kp' : Draws) (one : Bool) (i : Nat) :
+    ∀ (σ : List α) (ks : List (Node α)) (b : Nat) (sc sp : List Nat),
+    NoChanceRepeatL sc ks → NoOppRepeatL (!first) sp ks →
+    (∀ x, x ∉ sc → kc x = kc' x) → (∀ x, x ∉ sp → kp x = kp' x) →
+    emActs first strat kc kp one i σ ks b = emActs first strat kc' kp' one i σ ks b
+  | s :: σ, n :: ks, b, sc, sp, hc, hp, hkc, hkp => by
+    obtain ⟨h1, h2⟩ := (by simpa [NoChanceRepeatL] using hc :
+      NoChanceRepeat sc n ∧ NoChanceRepeatL sc ks)
+    obtain ⟨g1, g2⟩ := (by simpa [NoOppRepeatL] using hp :
+      NoOppRepeat (!first) sp n ∧ NoOppRepeatL (!first) sp ks)
+    simp only [emActs]
+    rw [em_congr kc kc' kp kp' n sc sp h1 g1 hkc hkp,
+      emActs_congr kc kc' kp kp' one i σ ks (b + 1) sc sp h2 g2 hkc hkp]
+  | [], _, _, _, _, _, _, _, _ => by simp only [emActs]
+  | _ :: _, [], _, _, _, _, _, _, _ => by simp only [emActs]
+end
+
+end
+
+/-! ## signs, reaches, accumulations -/
+
+/-- the value to the updating player is `sgn *` the value to player one -/
+def sgn (first : Bool) : α := if first then 1 else -1
+
+/-- the reach of the rest of the world (chance and the other player) -/
+def wOf (first : Bool) (pc p1 p2 : α) : α := if first then pc * p2 else p1 * pc
+
+theorem wOf_chance (first : Bool) (pc p p1 p2 : α) :
+    wOf first (pc * p) p1 p2 = wOf first pc p1 p2 * p := by
+  cases first <;> simp only [wOf, if_true, Bool.false_eq_true, if_false] <;> ring
+
+theorem mult_eq (first : Bool) (pc p1 p2 : α) :
+    (if first then pc * p2 else -p1 * pc) = sgn first * wOf first pc p1 p2 := by
+  cases first <;> simp [sgn, wOf]
+
+theorem not_self_ne (b : Bool) : ¬ (!b) = b := by cases b <;> simp
+
+/-- the child of a node of the updating player: unchanged rest-of-the-world reach -/
+theorem kid_own {β : Type} (first : Bool) (F : α → α → α → β) (P : β → α → Prop) (pc p1 p2 s : α)
+    (h : ∀ q1 q2, P (F pc q1 q2) (wOf first pc q1 q2)) :
+    P (if first = true then F pc (p1 * s) p2 else F pc p1 (p2 * s)) (wOf first pc p1 p2) := by
+  cases first
+  · have := h p1 (p2 * s)
+    simpa only [wOf, Bool.false_eq_true, if_false] using this
+  · have := h (p1 * s) p2
+    simpa only [wOf, if_true] using this
+
+/-- the child of a node of the other player: the rest-of-the-world reach is multiplied by the
+action probability -/
+theorem kid_opp {β : Type} (first : Bool) (F : α → α → α → β) (P : β → α → Prop) (pc p1 p2 s : α)
+    (h : ∀ q1 q2, P (F pc q1 q2) (wOf first pc q1 q2)) :
+    P (if (!first) = true then F pc (p1 * s) p2 else F pc p1 (p2 * s)) (wOf first pc p1 p2 * s) := by
+  cases first
+  · have := h (p1 * s) p2
+    simp only [wOf, Bool.false_eq_true, if_false] at this
+    simp only [wOf, Bool.not_false, if_true, Bool.false_eq_true, if_false]
+    rw [show p1 * pc * s = p1 * s * pc by ring]
+    exact this
+  · have := h p1 (p2 * s)
+    simp only [wOf, if_true] at this
+    simp only [wOf, Bool.not_true, if_true, Bool.false_eq_true, if_false]
+    rw [show pc * p2 * s = pc * (p2 * s) by ring]
+    exact this
+
+@[simp] theorem rg_extStratEffs (me : Bool) (I a : Nat) (one : Bool) (i : Nat) :
+    ∀ (σ : List α) (b : Nat), rg me I a (extStratEffs one i σ b) = 0
+  | [], _ => by simp [extStratEffs]
+  | s :: σ, b => by
+    have := rg_extStratEffs me I a one i σ (b + 1)
+    simp only [rg] at this ⊢
+    simp [extStratEffs, effSum_cons, this]
+
+theorem rg_subEffsE (me : Bool) (I a : Nat) (one : Bool) (i : Nat) (sub : α) (n : Nat) :
+    rg me I a (subEffsE one i sub n) = if one = me ∧ i = I ∧ a < n then -sub else 0 :=
+  rg_subEffs me I a one i sub n
+
+/-! ## the expectation of the external-sampling pass is the unsampled traversal -/
+
+section
+variable (g : Game α) (hch : ∀ ps ∈ g.chance, ps.sum = 1) (first : Bool)
+  (strat : Bool → Nat → List α) (opp : List (List α)) (hopp : ∀ σ ∈ opp, σ.sum = 1)
+  (hoppi : ∀ i e, (g.infos (!first))[i]? = some e → opp[i]? = some (strat (!first) i))
+  (k0 k0' : Draws) (I a : Nat)
+include hch hopp hoppi
+
+mutual
+theorem unbE : ∀ (n : Node α) (sc sp : List Nat) (pc p1 p2 : α),
+    NodeOK g n → NoChanceRepeat sc n → NoOppRepeat (!first) sp n →
+    EE g.chance opp k0 k0' (fun kc kp => (em first strat kc kp n).1)
+      = sgn first * (pm g.chance false strat k0 n pc p1 p2).1 ∧
+    EE g.chance opp k0 k0' (fun kc kp => rg first I a (em first strat kc kp n).2)
+        * wOf first pc p1 p2
+      = rg first I a (pm g.chance false strat k0 n pc p1 p2).2
+  | .term p, _, _, pc, p1, p2, _, _, _ => by
+    simp only [em, pm, rg_nil, EE_zero, zero_mul, and_true]
+    rw [EE_const _ _ _ _ hch hopp]
+    by_cases hf : first = true <;> simp [sgn, hf]
+  | .chance i ks, sc, sp, pc, p1, p2, hok, hnc, hnp => by
+    obtain ⟨⟨ps, hps, _⟩, _, hoks⟩ := (by simpa [NodeOK] using hok :
+      (∃ ps, g.chance[i]? = some ps ∧ ps.length = ks.length) ∧ 2 ≤ ks.length ∧ NodeOKL g ks)
+    obtain ⟨hi, hncs⟩ := (by simpa [NoChanceRepeat] using hnc :
+      i ∉ sc ∧ NoChanceRepeatL (i :: sc) ks)
+    have hnps : NoOppRepeatL (!first) sp ks := by simpa [NoOppRepeat] using hnp
+    have hps1 : ps.sum = 1 := hch ps (List.mem_of_getElem? hps)
+    have hgd : g.chance.getD i [] = ps := by simp [List.getD_eq_getElem?_getD, hps]
+    obtain ⟨e1, e2⟩ := unbE_ch ps ks (i :: sc) sp pc p1 p2 hoks hncs hnps
+    have hcg : ∀ (kc kp : Draws) (j : Nat), emNth first strat (upd kc i j) kp ks j
+        = emNth first strat kc kp ks j := fun kc kp j =>
+      emNth_congr first strat (upd kc i j) kc kp kp ks j (i :: sc) sp hncs hnps (fun x hx => by
+        have : x ≠ i := fun h => hx (h ▸ List.mem_cons_self)
+        simp [upd, this]) (fun _ _ => rfl)
+    simp only [em, pm, Bool.false_eq_true, if_false, hgd]
+    rw [← e1, ← e2]
+    constructor
+    · rw [EE_pullC g.chance opp k0 k0' i ps hps hps1]
+      simp only [upd_same, hcg]
+    · rw [EE_pullC g.chance opp k0 k0' i ps hps hps1]
+      simp only [upd_same, hcg]
+  | .player one i ks, sc, sp, pc, p1, p2, hok, hnc, hnp => by
+    obtain ⟨⟨e, he, _⟩, _, hoks⟩ := (by simpa [NodeOK] using hok :
+      (∃ e, (g.infos one)[i]? = some e ∧ e.actions.length = ks.length) ∧ 2 ≤ ks.length ∧ NodeOKL g ks)
+    have hncs : NoChanceRepeatL sc ks := by simpa [NoChanceRepeat] using hnc
+    by_cases ho : one = first
+    · have ho' : first = one := ho.symm
+      subst ho'
+      have hnps : NoOppRepeatL (!first) sp ks := by simpa [NoOppRepeat] using hnp
+      obtain ⟨h1, h2, h3⟩ := unbE_own i (strat first i) ks sc sp pc p1 p2 0 hoks hncs hnps
+      simp only [em, if_true, pm, rg_append, rg_stratEffs, rg_subEffs, rg_subEffsE, zero_add,
+        mult_eq, true_and]
+      refine ⟨h1, ?_⟩
+      rw [EE_add, add_mul, h3]
+      congr 1
+      by_cases hc : i = I ∧ a < (strat first i).length
+      · simp only [if_pos hc]; rw [EE_neg, neg_mul, h2]
+      · simp only [if_neg hc]; rw [EE_zero, zero_mul]
+    · have ho' : (!first) = one := (Bool.eq_not_of_ne ho).symm
+      subst ho'
+      obtain ⟨hi, hnps⟩ := (by simpa [NoOppRepeat] using hnp :
+        i ∉ sp ∧ NoOppRepeatL (!first) (i :: sp) ks)
+      have hσ : opp[i]? = some (strat (!first) i) := hoppi i e he
+      have hσ1 : (strat (!first) i).sum = 1 := hopp _ (List.mem_of_getElem? hσ)
+      obtain ⟨e1, e2⟩ := unbE_opp i (if (!first) = true then pc * p2 else -p1 * pc)
+        (strat (!first) i) ks sc (i :: sp) pc p1 p2 0 hoks hncs hnps
+      have hcg : ∀ (kc kp : Draws) (j : Nat), emNth first strat kc (upd kp i j) ks j
+          = emNth first strat kc kp ks j := fun kc kp j =>
+        emNth_congr first strat kc kc (upd kp i j) kp ks j sc (i :: sp) hncs hnps (fun _ _ => rfl)
+          (fun x hx => by
+            have : x ≠ i := fun h => hx (h ▸ List.mem_cons_self)
+            simp [upd, this])
+      have hne := not_self_ne first
+      simp only [em, pm, rg_append, rg_stratEffs, rg_extStratEffs, rg_subEffs, hne,
+        false_and, if_false, zero_add, add_zero]
+      rw [← e1, ← e2]
+      constructor
+      · rw [EE_pullP g.chance opp k0 k0' i _ hσ hσ1]
+        simp only [upd_same, hcg]
+      · rw [EE_pullP g.chance opp k0 k0' i _ hσ hσ1]
+        simp only [upd_same, hcg]
+theorem unbE_ch : ∀ (ps : List α) (ks : List (Node α)) (sc sp : List Nat) (pc p1 p2 : α),
+    NodeOKL g ks → NoChanceRepeatL sc ks → NoOppRepeatL (!first) sp ks →
+    expectOne ps (fun j => EE g.chance opp k0 k0' (fun kc kp => (emNth first strat kc kp ks j).1))
+      = sgn first * (pmCh g.chance false strat k0 ps ks pc p1 p2).1 ∧
+    expectOne ps (fun j => EE g.chance opp k0 k0'
+        (fun kc kp => rg first I a (emNth first strat kc kp ks j).2)) * wOf first pc p1 p2
+      = rg first I a (pmCh g.chance false strat k0 ps ks pc p1 p2).2
+  | [], _, _, _, _, _, _, _, _, _ => by simp [expectOne_nil, pmCh]
+  | _ :: _, [], _, _, _, _, _, _, _, _ => by simp [emNth, pmCh, EE_zero, expectOne_const]
+  | p :: ps, n :: ks, sc, sp, pc, p1, p2, hok, hnc, hnp => by
+    obtain ⟨o1, o2⟩ := (by simpa [NodeOKL] using hok : NodeOK g n ∧ NodeOKL g ks)
+    obtain ⟨c1, c2⟩ := (by simpa [NoChanceRepeatL] using hnc :
+      NoChanceRepeat sc n ∧ NoChanceRepeatL sc ks)
+    obtain ⟨q1, q2⟩ := (by simpa [NoOppRepeatL] using hnp :
+      NoOppRepeat (!first) sp n ∧ NoOppRepeatL (!first) sp ks)
+    obtain ⟨h1, h2⟩ := unbE_ch ps ks sc sp pc p1 p2 o2 c2 q2
+    obtain ⟨g1, g2⟩ := unbE n sc sp (pc * p) p1 p2 o1 c1 q1
+    rw [wOf_chance] at g2
+    simp only [expectOne_cons, emNth, pmCh, rg_append]
+    constructor
+    · rw [h1, g1]; ring
+    · rw [← g2, ← h2]; ring
+theorem unbE_own (i : Nat) :
+    ∀ (σ : List α) (ks : List (Node α)) (sc sp : List Nat) (pc p1 p2 : α) (b : Nat),
+    NodeOKL g ks → NoChanceRepeatL sc ks → NoOppRepeatL (!first) sp ks →
+    EE g.chance opp k0 k0' (fun kc kp => (emActs first strat kc kp first i σ ks b).1)
+      = sgn first * (pmActs g.chance false strat k0 first i (sgn first * wOf first pc p1 p2)
+          σ ks pc p1 p2 b).1 ∧
+    EE g.chance opp k0 k0' (fun kc kp => (emActs first strat kc kp first i σ ks b).1)
+        * wOf first pc p1 p2
+      = (pmActs g.chance false strat k0 first i (sgn first * wOf first pc p1 p2)
+          σ ks pc p1 p2 b).2.1 ∧
+    EE g.chance opp k0 k0' (fun kc kp => rg first I a (emActs first strat kc kp first i σ ks b).2)
+        * wOf first pc p1 p2
+      = rg first I a (pmActs g.chance false strat k0 first i (sgn first * wOf first pc p1 p2)
+          σ ks pc p1 p2 b).2.2
+  | s :: σ, n :: ks, sc, sp, pc, p1, p2, b, hok, hnc, hnp => by
+    obtain ⟨o1, o2⟩ := (by simpa [NodeOKL] using hok : NodeOK g n ∧ NodeOKL g ks)
+    obtain ⟨c1, c2⟩ := (by simpa [NoChanceRepeatL] using hnc :
+      NoChanceRepeat sc n ∧ NoChanceRepeatL sc ks)
+    obtain ⟨q1, q2⟩ := (by simpa [NoOppRepeatL] using hnp :
+      NoOppRepeat (!first) sp n ∧ NoOppRepeatL (!first) sp ks)
+    obtain ⟨r1, r2⟩ := kid_own first (pm g.chance false strat k0 n)
+      (fun r w => EE g.chance opp k0 k0' (fun kc kp => (em first strat kc kp n).1)
+          = sgn first * r.1 ∧
+        EE g.chance opp k0 k0' (fun kc kp => rg first I a (em first strat kc kp n).2) * w
+          = rg first I a r.2) pc p1 p2 s
+      (fun x1 x2 => unbE n sc sp pc x1 x2 o1 c1 q1)
+    obtain ⟨a1, a2, a3⟩ := unbE_own i σ ks sc sp pc p1 p2 (b + 1) o2 c2 q2
+    simp only [emActs, pmActs, rg_append, rg_cons]
+    refine ⟨?_, ?_, ?_⟩
+    · rw [EE_add, EE_mul_left, r1, a1]; ring
+    · rw [EE_add, EE_mul_left, add_mul, a2, r1]; ring
+    · rw [EE_add, EE_add, add_mul, add_mul, r2, a3]
+      congr 2
+      by_cases hc : True ∧ i = I ∧ b = a
+      · simp only [if_pos hc]; rw [r1]; ring
+      · simp only [if_neg hc]; rw [EE_zero, zero_mul]
+  | [], _, _, _, _, _, _, _, _, _, _ => by simp [emActs, pmActs, EE_zero]
+  | _ :: _, [], _, _, _, _, _, _, _, _, _ => by simp [emActs, pmActs, EE_zero]
+theorem unbE_opp (i : Nat) (mult : α) :
+    ∀ (σ : List α) (ks : List (Node α)) (sc sp : List Nat) (pc p1 p2 : α) (b : Nat),
+    NodeOKL g ks → NoChanceRepeatL sc ks → NoOppRepeatL (!first) sp ks →
+    expectOne σ (fun j => EE g.chance opp k0 k0' (fun kc kp => (emNth first strat kc kp ks j).1))
+      = sgn first * (pmActs g.chance false strat k0 (!first) i mult σ ks pc p1 p2 b).1 ∧
+    expectOne σ (fun j => EE g.chance opp k0 k0'
+        (fun kc kp => rg first I a (emNth first strat kc kp ks j).2)) * wOf first pc p1 p2
+      = rg first I a (pmActs g.chance false strat k0 (!first) i mult σ ks pc p1 p2 b).2.2
+  | s :: σ, n :: ks, sc, sp, pc, p1, p2, b, hok, hnc, hnp => by
+    obtain ⟨o1, o2⟩ := (by simpa [NodeOKL] using hok : NodeOK g n ∧ NodeOKL g ks)
+    obtain ⟨c1, c2⟩ := (by simpa [NoChanceRepeatL] using hnc :
+      NoChanceRepeat sc n ∧ NoChanceRepeatL sc ks)
+    obtain ⟨q1, q2⟩ := (by simpa [NoOppRepeatL] using hnp :
+      NoOppRepeat (!first) sp n ∧ NoOppRepeatL (!first) sp ks)
+    obtain ⟨r1, r2⟩ := kid_opp first (pm g.chance false strat k0 n)
+      (fun r w => EE g.chance opp k0 k0' (fun kc kp => (em first strat kc kp n).1)
+          = sgn first * r.1 ∧
+        EE g.chance opp k0 k0' (fun kc kp => rg first I a (em first strat kc kp n).2) * w
+          = rg first I a r.2) pc p1 p2 s
+      (fun x1 x2 => unbE n sc sp pc x1 x2 o1 c1 q1)
+    obtain ⟨a1, a2⟩ := unbE_opp i mult σ ks sc sp pc p1 p2 (b + 1) o2 c2 q2
+    have hne := not_self_ne first
+    simp only [expectOne_cons, emNth, pmActs, rg_append, rg_cons, hne, false_and, if_false,
+      zero_add]
+    constructor
+    · rw [r1, a1]; ring
+    · rw [← r2, ← a2]; ring
+  | [], _, _, _, _, _, _, _, _, _, _ => by simp [expectOne_nil, pmActs]
+  | _ :: _, [], _, _, _, _, _, _, _, _, _ => by simp [emNth, pmActs, EE_zero, expectOne_const]
+end
+
+end
+
+end UnbE
+open Unb UnbE
+
 /-- **external sampling is unbiased for the regrets of the updating player** -/
 theorem external_pass_unbiased (g : Game α) (hg : GameWF g) (hnr : NoChanceRepeat [] g.root)
     (first : Bool) (strat : Bool → Nat → List α)
@@ -32,6 +654,99 @@ theorem external_pass_unbiased (g : Game α) (hg : GameWF g) (hnr : NoChanceRepe
       expectDraws (oppTable g first strat) 0 (fun _ => 0) (fun kp =>
         effSum (erec (extCtx g first strat kc kp) g.root {}).2.1 first I Slot.regret a))
       = effSum (vrec (fullCtx g strat 0) g.root 1 1 1 {}).2.1 first I Slot.regret a := by
-  sorry
+  have he : ∀ kc kp, (erec (extCtx g first strat kc kp) g.root {}).2.1
+      = (em first strat kc kp g.root).2 := fun kc kp =>
+    (erec_em g first strat kc kp g.root {} (ConsE_empty kc kp)).2.1
+  have hf : (vrec (fullCtx g strat 0) g.root 1 1 1 {}).2.1
+      = (pm g.chance false strat (fun _ => 0) g.root 1 1 1).2 :=
+    (vrec_pm _ _ (ctxK_full g strat 0 _) g.root 1 1 1 {} (ConsK_empty _)).2.1
+  simp only [he, hf]
+  have hopp : ∀ σ ∈ oppTable g first strat, σ.sum = 1 := by
+    intro σ hσ
+    obtain ⟨j, hj, rfl⟩ := List.mem_map.mp hσ
+    have hj' : j < (g.infos (!first)).length := List.mem_range.mp hj
+    exact (hs j _ (List.getElem?_eq_getElem hj')).2
+  have hoppi : ∀ i e, (g.infos (!first))[i]? = some e →
+      (oppTable g first strat)[i]? = some (strat (!first) i) := by
+    intro i e hi
+    have hi' : i < (g.infos (!first)).length := (List.getElem?_eq_some_iff.mp hi).1
+    simp [oppTable, List.getElem?_map, List.getElem?_range hi']
+  obtain ⟨hist, hpr, _⟩ := hg.recall (!first)
+  have hnp : NoOppRepeat (!first) [] g.root :=
+    pr_noRepeat (!first) hist g.root [] [] hpr (fun x hx => by simp at hx)
+  have := (unbE g (fun ps h => (hg.chancePos ps h).2) first strat (oppTable g first strat) hopp
+    hoppi (fun _ => 0) (fun _ => 0) I a g.root [] [] 1 1 1 hg.nodes hnr hnp).2
+  simpa [wOf, EE, rg] using this
+
+namespace UnbE
+
+/-! ## non-vacuity (closed examples over `ℚ`) -/
+
+section Examples
+
+/-- a chance root (odds `1/3 : 2/3`); on the left player two moves before player one, on the right
+player one moves before player two -/
+def ueGame : Game ℚ where
+  chance := [[1/3, 2/3]]
+  p1 := [⟨0, [0, 1], none⟩]
+  p2 := [⟨0, [0, 1], none⟩]
+  s1 := []
+  s2 := []
+  root := .chance 0 [
+    .player false 0 [.player true 0 [.term 1, .term 3], .term 0],
+    .player true 0 [.term 4, .player false 0 [.term (-2), .term 2]]]
+
+def ueStrat : Bool → Nat → List ℚ := fun one _ => if one then [2/5, 3/5] else [1/4, 3/4]
+
+theorem ueGame_wf : GameWF ueGame where
+  chancePos := by decide +kernel
+  nodes := by simp [NodeOK, NodeOKL, ueGame, Game.infos]
+  recall := fun me => ⟨fun _ => [], by cases me <;> simp [PR, PRL, PRD, ueGame], by simp⟩
+  tables1 := ⟨by decide, by decide, by decide, by decide⟩
+  tables2 := ⟨by decide, by decide, by decide, by decide⟩
+  actsTwo := by intro me; cases me <;> decide
+
+theorem ueGame_nr : NoChanceRepeat [] ueGame.root := by
+  simp [NoChanceRepeat, NoChanceRepeatL, ueGame]
+
+theorem ueStrat_ok (first : Bool) : ∀ j e, (ueGame.infos (!first))[j]? = some e →
+    (ueStrat (!first) j).length = e.actions.length ∧ (ueStrat (!first) j).sum = 1 := by
+  intro j e h
+  cases first <;> cases j <;> simp [ueGame, Game.infos, ueStrat] at h ⊢
+  · subst h; norm_num
+  · subst h; norm_num
+
+/-- the theorem applies to this game -/
+example (first : Bool) (I a : Nat) :=
+  external_pass_unbiased ueGame ueGame_wf ueGame_nr first ueStrat (ueStrat_ok first) I a
+
+/-- player one updating: both sides are `1/3·1/4·(1 - 11/5) + 2/3·(4 - 11/5) = 11/10` -/
+example :
+    expectDraws ueGame.chance 0 (fun _ => 0) (fun kc =>
+      expectDraws (oppTable ueGame true ueStrat) 0 (fun _ => 0) (fun kp =>
+        effSum (erec (extCtx ueGame true ueStrat kc kp) ueGame.root {}).2.1 true 0 Slot.regret 0))
+      = 11/10 ∧
+    effSum (vrec (fullCtx ueGame ueStrat 0) ueGame.root 1 1 1 {}).2.1 true 0 Slot.regret 0
+      = 11/10 := by
+  decide +kernel
+
+/-- player two updating: both sides are `1/3·(-11/5 + 11/20) + 2/3·3/5·(2 + 1) = 13/20` -/
+example :
+    expectDraws ueGame.chance 0 (fun _ => 0) (fun kc =>
+      expectDraws (oppTable ueGame false ueStrat) 0 (fun _ => 0) (fun kp =>
+        effSum (erec (extCtx ueGame false ueStrat kc kp) ueGame.root {}).2.1 false 0 Slot.regret 0))
+      = 13/20 ∧
+    effSum (vrec (fullCtx ueGame ueStrat 0) ueGame.root 1 1 1 {}).2.1 false 0 Slot.regret 0
+      = 13/20 := by
+  decide +kernel
+
+/-- a single external-sampling pass is *not* the unsampled one -/
+example : effSum (erec (extCtx ueGame true ueStrat (fun _ => 0) (fun _ => 0)) ueGame.root {}).2.1
+    true 0 Slot.regret 0 ≠ 11/10 := by
+  decide +kernel
+
+end Examples
+
+end UnbE
 
 end Cfr
